@@ -5,6 +5,12 @@ HERE = os.path.dirname(os.path.dirname(os.path.abspath(__file__)))
 PROPS = [json.loads(l) for l in open(os.path.join(HERE, 'properties.jsonl'))]
 
 CLAIMED = {
+ 'C15': dict(
+   category='proof',
+   text='(a) Non-negativity as a postcondition of every line in the frozen list (about 530 numeric lines per year: deductions, taxable income, tax, credits, payments, refund, owed): each returning path of the real line yields a value >= 0 for all inputs, assuming non-negative amount inputs and the contracts of the lines it reads (>= 0 for listed lines, and their own definitions unfolded up to 6 levels where needed), Sigma-sums non-negative by a base/step lemma on the summand. (b) Balance identities as lemmas over the definitions of the real lines 34/35a/36/37 (overpayment - owed = payments - tax; at most one positive; refund + applied = overpayment) and the NC lines 26a/28/33/34/refund, with stored values as exact decimals. z3, unbounded in inputs and in the number of W-2/1099 copies.',
+   design_ref='DESIGN 4 C15',
+   note='contracts/nonneg.json is the frozen list (greatest provable set plus hand-added lines the forms define as non-negative); lines that may legitimately be negative (AGI and what follows from it, Form 8606 differences) are not listed; lemmas assume each involved line has a value equal to its definition (C03) and exact decimals (C12); A-REAL.',
+   technique='line postconditions and multi-line lemmas over path summaries of the real functions, z3 (LRA + uninterpreted Sigma)'),
  'C09': dict(
    category='proof',
    text='Frozen gate table (192 gate inputs over three years, every other boolean input classified as non-gate): for each gate, every path of every line that reads it with the declaring answer ends in FieldNotImplemented, or a companion line raises on every compatible path and is demanded with the reader (required line of the same form, or a frozen must-read chain that is re-verified on the real read sets every run). Amount gates (Schedule B rows, HSA over-contribution, Form 1116 limit) are postconditions "no returning path is compatible with the excess". Paths come from symbolic execution of the real lines; feasibility and implications by z3.',
